@@ -599,6 +599,10 @@ class Rewriter:
             b = self.sub('R4:self-addr', r'\(self == ', '(self_addr == ', b)
         if kind == 'vec':
             b = self.vec_rules(b)
+        if kind == 'string':
+            # R17: `Bound<&usize>` patterns lose the reference (the model's bounds hold values); `self.is_char_boundary` is a shim
+            b = self.sub('R17:bound-deref', r'\b(Included|Excluded)\(&(\w+)\)', r'\1(\2)', b)
+            b = self.sub('R17:is_char_boundary', r'\bself\.is_char_boundary\(', 'is_char_boundary(', b)
         if kind == 'setlen':
             # R16: the guard's `len: &mut usize` back-reference is dropped (its write-back is made explicit at the use site)
             b = self.sub('R16:guard-deref', r'\*len\b', 'len', b)
